@@ -255,6 +255,10 @@ def run_history(fam, kind, impl, mode, rng, rec, h):
                 'tree-damaged', 'contents-differ-from-uncached-twin',
                 'contents-raised', 'result-differs-from-uncached-twin'):
             d['finding'] = 'F22'
+        elif state.get('f34') and mech in (
+                'tree-damaged', 'contents-differ-from-uncached-twin',
+                'contents-raised', 'result-differs-from-uncached-twin'):
+            d['finding'] = 'F34'
         elif impl == 'py' and mode == 'in-call':
             d['finding'] = 'F16'
         rec.violation(mech, **d)
@@ -405,5 +409,8 @@ def run_history(fam, kind, impl, mode, rng, rec, h):
             except Exception as e:
                 fail('commit-raised', detail='%s: %s' % (type(e).__name__, e))
                 return
+            if is_tree and minidb.embedded_but_leaf_has_oid(conn, c):
+                rec.ev('f34-condition')
+                state['f34'] = True
     if h == 0 and kind == 'BTree':
         rec.sample(dict(desc, history=[brief(x, 80) for x in log[:10]]))
